@@ -551,10 +551,19 @@ def swallow_seqs():
                     yield tuple(x for x in (a, S, b, c) if x is not None)
 
 
+# long runs of noise (no frame-start byte): more single-byte discards in a row than Python's recursion limit
+NOISE_RUNS = {
+    "nFFx1500": (0, "noise", b"\xff" * 1500),
+    "n00x3000": (0, "noise", b"\x00" * 3000),
+    "nabcx500": (0, "noise", b"abc" * 500),
+}
+TOKENS.update(NOISE_RUNS)
+
+
 def long_seqs(neighbours):
-    """(a?, L, b?) for every boundary-length token L and every neighbour a, b (None = absent)."""
+    """(a?, L, b?) for every boundary-length token / long noise run L and every neighbour a, b (None = absent)."""
     nb = [None] + list(neighbours)
-    for L in LONG_NAMES:
+    for L in LONG_NAMES + list(NOISE_RUNS):
         for a in nb:
             for b in nb:
                 yield tuple(x for x in (a, L, b) if x is not None)
